@@ -110,7 +110,7 @@ def gen_scenario(seed, profile=None):
             produced += 1
         elif x < 0.6:
             steps.append({"op": "glyph_instance", "glyph": rng.choice(names), "loc": loc,
-                          "into": rng.random() < 0.3})
+                          "into": rng.choice([False, False, False, True, "dirty"])})
         elif x < 0.7:
             steps.append({"op": "layer_get", "layer": rng.randrange(nsrc), "glyph": rng.choice(names)})
         elif x < 0.8 and steps:
@@ -359,8 +359,18 @@ def _request(sysm, st, fault=None):
             elif st["op"] == "glyph_instance":
                 loc = {**inst.default_design_location, **st["loc"]}
                 if st.get("into"):
-                    res = inst.generate_glyph_instance(st["glyph"], inst.normalize(loc),
-                                                       output_glyph=inst.new_glyph(st["glyph"]))
+                    # the caller supplies the glyph object to fill - one it has used before
+                    og = inst.new_glyph(st["glyph"])
+                    if st.get("into") == "dirty":
+                        pen = og.getPointPen()
+                        pen.beginPath()
+                        for x, y in ((1, 1), (9, 1), (5, 8)):
+                            pen.addPoint((x, y), segmentType="line")
+                        pen.endPath()
+                        pen.addComponent(st["glyph"], (1, 0, 0, 1, 3, 3))
+                        og.appendAnchor({"name": "stale", "x": 1, "y": 2})
+                        og.width = 12345
+                    res = inst.generate_glyph_instance(st["glyph"], inst.normalize(loc), output_glyph=og)
                 else:
                     res = inst.generate_glyph_instance(st["glyph"], inst.normalize(loc))
             elif st["op"] == "layer_get":
